@@ -2188,5 +2188,153 @@ theorem stalled_D_mustWait {p : Proc N} {prog : List (Instr N)} (hwf : wfProc p 
   · intro k j
     rw [doneBefore_eq, show s.table.length = s.table.reverse.length by simp, List.take_length, grantedB_reverse]
 
+/-! ## 11. Every instruction that has left has performed both accesses -/
+
+section maximal
+omit [LT N] [DecidableRel (α := N) (· < ·)]
+
+/-- consecutive units are connected -/
+def SuccChain (p : Proc N) : List (UnitM N) → Prop
+  | [] => True
+  | [_] => True
+  | a :: b :: rest => b ∈ succsOf p a.name ∧ SuccChain p (b :: rest)
+
+theorem routesFrom_head (p : Proc N) (c : N) (fuel : Nat) (v : UnitM N) :
+    ∀ r ∈ routesFrom p c fuel v, ∃ t, r = v :: t := by
+  intro r hr
+  cases fuel with
+  | zero => simp [routesFrom] at hr; exact ⟨[], hr⟩
+  | succ f =>
+    unfold routesFrom at hr
+    simp only at hr
+    split at hr
+    · simp at hr; exact ⟨[], hr⟩
+    · simp only [List.mem_map] at hr
+      obtain ⟨r', _, rfl⟩ := hr
+      exact ⟨r', rfl⟩
+
+theorem routesFrom_chain (p : Proc N) (c : N) (fuel : Nat) (v : UnitM N) :
+    ∀ r ∈ routesFrom p c fuel v, SuccChain p r := by
+  induction fuel generalizing v with
+  | zero => intro r hr; simp [routesFrom] at hr; subst hr; trivial
+  | succ f ih =>
+    intro r hr
+    unfold routesFrom at hr
+    simp only at hr
+    split at hr
+    · simp at hr; subst hr; trivial
+    · simp only [List.mem_map, List.mem_flatMap] at hr
+      obtain ⟨r', ⟨w, hw, hr'⟩, rfl⟩ := hr
+      obtain ⟨t, rfl⟩ := routesFrom_head p c f w r' hr'
+      exact ⟨(List.mem_filter.1 hw).1, ih w _ hr'⟩
+
+theorem SuccChain.next {p : Proc N} {l : List (UnitM N)} {a x : UnitM N} {t : List (UnitM N)}
+    (h : SuccChain p (l ++ [a] ++ x :: t)) : x ∈ succsOf p a.name := by
+  induction l with
+  | nil => exact h.1
+  | cons b l' ih =>
+    cases l' with
+    | nil => exact ih h.2
+    | cons b' l'' => exact ih h.2
+
+/-- **A walk from an input-boundary port that ends at the output boundary passes a read-locking and a write-locking
+unit.** -/
+theorem maximal_walk_locks {p : Proc N} (hwf : wfProc p = true) {c : N} {w : List (UnitM N)} {u : UnitM N}
+    (hw : IsWalk p c (w ++ [u])) (hstart : ∃ v0 ∈ p.inBoundary, (w ++ [u]).head? = some v0)
+    (hout : u.name ∈ p.outBoundary) : ∀ k, (w ++ [u]).any (lockOf k) = true := by
+  obtain ⟨v0, hv0, hhead⟩ := hstart
+  obtain ⟨rest, hW⟩ : ∃ rest, w ++ [u] = v0 :: rest := by
+    cases hwu : w ++ [u] with
+    | nil => simp at hwu
+    | cons a t => rw [hwu] at hhead; simp at hhead; exact ⟨t, by rw [hhead]⟩
+  rw [hW] at hw
+  have ho := wfProc_orderOK hwf
+  have hlen : rest.length ≤ p.allUnits.length := by
+    have h1 := hw.length_le ho
+    have h2 := rank_le p v0.name
+    have h3 : p.dests.length ≤ p.allUnits.length := by
+      simp only [Proc.allUnits, Proc.dests, List.length_append, List.length_map]; omega
+    omega
+  obtain ⟨r, hr, hpre⟩ := hw.prefix_route hlen
+  have hc0 : c ∈ v0.caps := by
+    cases rest with
+    | nil => exact hw
+    | cons _ _ => exact hw.1
+  have hcap : c ∈ allCaps p := by
+    unfold allCaps
+    rw [mem_dedup, List.mem_flatMap]
+    exact ⟨v0, mem_allUnits_of_mem_inBoundary hv0, hc0⟩
+  have hok := wfProc_routes hwf c hcap v0 hv0 hc0 r hr
+  have hchain := routesFrom_chain p c _ v0 r hr
+  rw [← hW] at hpre
+  obtain ⟨t, ht⟩ := hpre
+  have htnil : t = [] := by
+    cases t with
+    | nil => rfl
+    | cons x t' =>
+      exfalso
+      rw [← ht] at hchain
+      obtain ⟨d, hd, hq, _⟩ := mem_succsOf'.1 hchain.next
+      exact (orderOK_pred ho hd hq).2.1 hout
+  subst htnil
+  rw [List.append_nil] at ht
+  subst ht
+  obtain ⟨a, b, _, _, _, ⟨va, hva, hvard⟩, ⟨vb, hvb, hvbwr⟩⟩ := routeLocksOK_iff hok
+  intro k
+  rw [List.any_eq_true]
+  cases k with
+  | false => exact ⟨va, List.mem_of_getElem? hva, hvard⟩
+  | true => exact ⟨vb, List.mem_of_getElem? hvb, hvbwr⟩
+
+end maximal
+
+/-- every issued instruction is still hosted or has performed both its read and its write access -/
+def DoneInv (p : Proc N) (prog : List (Instr N)) (s : SimState N) : Prop :=
+  ∀ i, i < s.entered → (∃ n, i ∈ (s.util.get n).map (·.idx)) ∨ ∀ k, grantedB p s.table k i = true
+
+omit [LT N] [DecidableRel (α := N) (· < ·)] in
+theorem DoneInv.init (p : Proc N) (prog : List (Instr N)) : DoneInv p prog (initState prog) := by
+  intro i hi; simp [initState] at hi
+
+omit [LT N] [DecidableRel (α := N) (· < ·)] in
+/-- a not data-stalled instruction at the output boundary has performed both accesses -/
+theorem granted_of_outB {p : Proc N} {prog : List (Instr N)} (hwf : wfProc p = true) {s : SimState N}
+    (hh : HazInv p prog s) {u : UnitM N} (hu : u ∈ p.allUnits) (hout : u.name ∈ p.outBoundary) {y : HI}
+    (hy : y ∈ s.util.get u.name) (hyd : y.st ≠ .D) : ∀ k, grantedB p s.table k y.idx = true := by
+  obtain ⟨ins, w, _, hwalk, hstart, hg⟩ := hh u hu y hy
+  intro k
+  have := maximal_walk_locks hwf hwalk hstart hout k
+  rw [hg k]
+  rw [List.any_append] at this
+  have hd : (y.st != .D) = true := by simpa using hyd
+  simpa [hd] using this
+
+theorem DoneInv.step {p : Proc N} {prog : List (Instr N)} (hwf : wfProc p = true) {s s' : SimState N}
+    (hc : CoreInv p prog s) (hh : HazInv p prog s) (hdn : DoneInv p prog s)
+    (hs : runCycle p prog s = .ok (some s')) : DoneInv p prog s' := by
+  obtain ⟨lab, qs, hlab, _, _, rfl⟩ := runCycle_eq_some hs
+  have hn := wfProc_nodup_names hwf
+  have hF := fillCycle_issueInv prog s.util s.entered hn (wfProc_orderOK hwf)
+  have hidx := labelAll_get_idx hlab
+  intro i hi
+  show (∃ n, i ∈ (lab.1.get n).map (·.idx)) ∨ ∀ k, grantedB p (lab.1 :: s.table) k i = true
+  by_cases hlt : i < s.entered
+  · rcases hdn i hlt with ⟨n, hn'⟩ | hg
+    · obtain ⟨y, hy, hyi⟩ := List.mem_map.1 hn'
+      by_cases hcond : n ∉ p.outBoundary ∨ y.st = .D
+      · obtain ⟨n', hn''⟩ := hF.alive n y hy hcond
+        left; exact ⟨n', by rw [hidx n', ← hyi]; exact hn''⟩
+      · right
+        have hout : n ∈ p.outBoundary := Classical.byContradiction (fun h => hcond (Or.inl h))
+        have hyd : y.st ≠ .D := fun h => hcond (Or.inr h)
+        have hne : s.util.get n ≠ [] := fun e => by rw [e] at hy; cases hy
+        obtain ⟨u, hu, hun⟩ := List.mem_map.1 (hc.row.names n hne)
+        subst hun
+        intro k
+        rw [grantedB_cons, ← hyi, granted_of_outB hwf hh hu hout hy hyd k]; simp
+    · right; intro k; rw [grantedB_cons, hg k]; simp
+  · obtain ⟨n, hn'⟩ := hF.hosted i (by omega) hi
+    left; exact ⟨n, by rw [hidx n]; exact hn'⟩
+
 end Hazards
 end ProcSim
